@@ -121,6 +121,16 @@ theorem pth_scans_as_written (x : Array Rat) (a : Rat) (f i j : Nat) :
   · simp [scanUpRaw, Kern.Quantile.scanUpTestEl, Kern.Quantile.scanUpStepEl]
   · simp [scanDownRaw, Kern.Quantile.scanDownTestEl, Kern.Quantile.scanDownStepEl]
 
+/-- **`lib/fff/fff_vector.c` carries the same scans**: the tests and steps regenerated from `_fff_pth_element` /
+    `_fff_pth_interval` are those of quantile.c, so `pth_scans_as_written` and the in-window theorems speak about
+    the fff copy as well (its partition protocol around the scans is compared with the C16 model, not translated). -/
+theorem fff_pth_scans_same_as_quantile :
+    Kern.FffVec.scanUpTestEl = Kern.Quantile.scanUpTestEl ∧ Kern.FffVec.scanDownTestEl = Kern.Quantile.scanDownTestEl ∧
+    Kern.FffVec.scanUpTestIv = Kern.Quantile.scanUpTestEl ∧ Kern.FffVec.scanDownTestIv = Kern.Quantile.scanDownTestEl ∧
+    Kern.FffVec.scanUpStepEl = Kern.Quantile.scanUpStepEl ∧ Kern.FffVec.scanDownStepEl = Kern.Quantile.scanDownStepEl ∧
+    Kern.FffVec.scanUpStepIv = Kern.Quantile.scanUpStepEl ∧ Kern.FffVec.scanDownStepIv = Kern.Quantile.scanDownStepEl :=
+  ⟨rfl, rfl, rfl, rfl, rfl, rfl, rfl, rfl⟩
+
 /-- the hypotheses are satisfiable and the sentinel matters: on `[3, 1, 2]` with pivot `x[0]` the raw
     upward scan from 1 without a sentinel would run off the end (`false`), with the window ordered it does not -/
 example : (scanUpRaw #[3, 1, 2] 3 3 1).2 = false ∧ (scanUpRaw #[2, 1, 3] 2 3 1) = (2, true) := by
